@@ -876,11 +876,11 @@ func scanOutLevel(c *core.Ctx) []ob {
 		fkey := core.FuncKey(pk, fd)
 		// level definitions
 		type ldef struct {
-			obj   types.Object
-			elems map[string]bool // textual bases of the elements whose Level() enters
+			obj     types.Object
+			elems   map[string]bool // textual bases of the elements whose Level() enters
 			viaInit bool
-			pos   token.Pos
-			text  string // for an anonymous working level: the Min(...) expression itself
+			pos     token.Pos
+			text    string // for an anonymous working level: the Min(...) expression itself
 		}
 		var defs []ldef
 		levelBases := func(e ast.Expr) map[string]bool {
